@@ -198,7 +198,14 @@ func GenUciSession(prop string, seed uint64) *Scenario {
 	rng := NewPRNG(seed, "scenario/"+prop)
 	sc := &Scenario{Prop: prop, Kind: "uci", Seed: seed, Checks: pf.Checks, PollUs: []int64{20, 50, 200}[rng.Intn(3)]}
 	sc.Cost = GenCost(rng, pf.MaxBaseNs, pf.Stalls)
+	curOpt := map[string]string{}
+	for _, o := range EngineOptions {
+		curOpt[o.Name] = o.Default
+	}
 	add := func(gap int64, op, line string) *Step {
+		if n, v, ok := parseSetOption(line); ok && op == "send" {
+			curOpt[n] = v
+		}
 		sc.Steps = append(sc.Steps, Step{GapUs: gap, Op: op, Line: line})
 		return &sc.Steps[len(sc.Steps)-1]
 	}
@@ -415,7 +422,34 @@ func GenUciSession(prop string, seed uint64) *Scenario {
 	if prop == "C12" && rng.Chance(0.35) {
 		posCmd, _ := genPosition(rng, 0)
 		goLine := fmt.Sprintf("go depth %d", rng.Range(1, maxD))
+		// options may be changed while the engine is idle: switch one off
+		// (or on) around the ucinewgame and restore it afterwards - the fresh
+		// engine runs with the same final options
+		toggle := ""
+		if rng.Chance(0.6) {
+			toggle = "Use_Hash"
+			if rng.Chance(0.4) {
+				var checks []string
+				for _, o := range EngineOptions {
+					if o.Type == "check" && o.Name != "Use_Book" {
+						checks = append(checks, o.Name)
+					}
+				}
+				toggle = checks[rng.Intn(len(checks))]
+			}
+		}
+		restore := curOpt[toggle]
+		if toggle != "" {
+			flipped := "true"
+			if strings.EqualFold(restore, "true") {
+				flipped = "false"
+			}
+			add(gapAfterResult(rng), "send", fmt.Sprintf("setoption name %s value %s", toggle, flipped))
+		}
 		add(gapAfterResult(rng), "send", "ucinewgame")
+		if toggle != "" {
+			add(20, "send", fmt.Sprintf("setoption name %s value %s", toggle, restore))
+		}
 		add(20, "send", posCmd)
 		add(20, "send", goLine)
 		add(0, "wait_best", "").MaxMs = 600_000
